@@ -40,8 +40,16 @@ class ThreadedFactory:
 
         This method must be called if :py:func:`teardown_object` has been implemented.
         """
+        first_exception = None
         for obj in self._objects:
-            self.teardown_object(obj)
+            try:
+                self.teardown_object(obj)
+            except Exception as excp:
+                # a failing teardown must not prevent the objects of the other threads from being torn down
+                if first_exception is None:
+                    first_exception = excp
+        if first_exception is not None:
+            raise first_exception
 
     def setup_object(self) -> Any:
         """
